@@ -18,7 +18,10 @@ def plan(name):
 
 def _in_job_phase(v):
     """A node before it first takes the cluster lock (i.e. before its try-submit-jobs)."""
-    return v.kind == "node" and v.data.get("acq:" + CL, 0) == 0
+    if v.kind != "node":
+        return False
+    # (in a pipeline the lock lives in the stage's directory: output-stage<k>/cluster_config.json.lock)
+    return not any(k.startswith("acq:") and k.endswith(CL) and n for k, n in v.data.items())
 
 
 @plan("c12")
